@@ -75,8 +75,11 @@ def check_object(spec):
     fails = []
     cls, p, i, n = spec
     C = CLASSES[cls]
-    o = make(spec)
     where = f"{cls}(prefix={p!r}, identifier={i!r}, name={n!r})"
+    try:
+        o = make(spec)
+    except Exception as e:  # noqa   (the statement: built from EVERY separator-free prefix and every identifier)
+        return [("construction-raises", f"{where}: {type(e).__name__}: {str(e)[:80]}")]
     curie = p + ":" + i
     if o.curie != curie:
         fails.append(("curie-is-not-prefix-colon-identifier", f"{where}: curie = {o.curie!r}"))
@@ -166,7 +169,10 @@ def check_unparsable():
 
 def check_pair(sa, sb):
     fails = []
-    a, b = make(sa), make(sb)
+    try:
+        a, b = make(sa), make(sb)
+    except Exception as e:  # noqa
+        return [("construction-raises", f"{sa} / {sb}: {type(e).__name__}: {str(e)[:80]}")]
     same = pair_of(sa) == pair_of(sb)
     ta, tb = sa[0] == "ReferenceTuple", sb[0] == "ReferenceTuple"
     where = f"{sa} vs {sb}"
@@ -191,7 +197,10 @@ def check_pair(sa, sb):
 
 
 def check_order_triple(sa, sb, sc):
-    a, b, c = make(sa), make(sb), make(sc)
+    try:
+        a, b, c = make(sa), make(sb), make(sc)
+    except Exception as e:  # noqa
+        return [("construction-raises", f"{sa} / {sb} / {sc}: {type(e).__name__}: {str(e)[:80]}")]
     fails = []
     if a < a:
         fails.append(("order-not-irreflexive", f"{sa}"))
@@ -490,6 +499,15 @@ def units(tier, seed):
 
 
 def run_unit(unit, ctx):
+    """Every object the units build has a separator-free prefix (where a rejection is expected the unit catches it itself), so a
+    ValidationError escaping from a unit is the library refusing an object the statement says can be built: a violation."""
+    try:
+        _run_unit(unit, ctx)
+    except ValidationError as e:
+        ctx.violation("C15/construction-raises", f"unit {unit}: {str(e)[:200]}", {"kind": "unit", "unit": unit})
+
+
+def _run_unit(unit, ctx):
     S = specs()
     k = unit["kind"]
 
@@ -578,6 +596,12 @@ def run_unit(unit, ctx):
 
 def replay(case):
     k = case["kind"]
+    if k == "unit":
+        from ..engine import Ctx
+
+        c = Ctx(0, case["unit"])
+        run_unit(case["unit"], c)
+        return [(v["signature"], v["message"]) for v in c.violations]
     if k == "object":
         f = check_object(tuple(case["spec"]))
     elif k == "unparsable":
